@@ -89,6 +89,13 @@ def s1(ctx, rep):
                 f"_schedule_new_tasks is reachable while {what}: " + str({k: v for k, v in (m or {}).items()}))
 
 
+def _anc(x):
+    p_ = getattr(x, "_parent", None)
+    while p_ is not None:
+        yield p_
+        p_ = getattr(p_, "_parent", None)
+
+
 def s2(ctx, rep, clause="S2"):
     P = ctx.P
     f = P.method("Tuner", "run")
@@ -135,6 +142,15 @@ def s2(ctx, rep, clause="S2"):
     rep.put(bool(bn) and p is None, clause, "must_follow", "Tuner.run: every exit after entering the try passes trial_backend.stop_all()",
             f, tr, f"{len(bn)} copies of the finally suite, none can be bypassed",
             witness=cfg.describe_path(p) if p else None)
+    # the failure check looks at every trial that finished during the run, not at the last iteration's ones
+    hf = [x for x in walk_shallow(f.node) if isinstance(x, ast.Call) and fn_name(x) == "_handle_failure"]
+    acc = {U(x.func.value) for x in walk_shallow(f.node) if isinstance(x, ast.Call) and fn_name(x) == "update" and isinstance(x.func, ast.Attribute)
+           and isinstance(x.func.value, ast.Name) and x.args and isinstance(x.args[0], ast.Name)
+           and any(isinstance(p_, (ast.While, ast.For)) for p_ in _anc(x))}
+    okh = len(hf) == 1 and (kwarg(hf[0], "done_trials_statuses", 0) is not None) and U(kwarg(hf[0], "done_trials_statuses", 0)) in acc
+    rep.put(okh, clause, "taint", "Tuner.run: _handle_failure is given the record accumulated over the whole run", f, hf[0] if hf else None,
+            f"accumulated in the loop: {sorted(acc)}", f"`{U(hf[0])[:80] if hf else ''}` is not given the dictionary the loop accumulates into "
+            f"({sorted(acc)}): a failure that happened before the last iteration is not reported when the limit is exceeded")
     # the error names the failed trial
     g = P.method("Tuner", "_handle_failure")
     raises = [n for n in walk_shallow(g.node) if isinstance(n, ast.Raise)]
@@ -509,6 +525,9 @@ def run(ctx, rep, tier="quick"):
     s6(ctx, rep)
     s7(ctx, rep)
     s6b(ctx, rep)
+    # the status a finished trial is counted under (completed vs paused) - shared with C01-S5
+    from . import c01 as _c01
+    _c01.s5b(ctx, rep, clause="S6")
     s9(ctx, rep)
     from . import c01
     c01.s10(ctx, rep, clause="S8")
